@@ -110,6 +110,8 @@ type transaction struct {
 	store   *store
 	op      keyvalue.OpID
 	results []keyvalue.OpResult
+	// unlockOnce releases the store exactly once, however often the transaction is ended (handler Abort, then Commit)
+	unlockOnce sync.Once
 }
 
 func (s *store) Transaction(options keyvalue.TransactionOptions) (keyvalue.Transaction, error) {
@@ -181,12 +183,12 @@ func (t *transaction) SetHandler(path string, src keyvalue.FileRecord, contents 
 
 func (t *transaction) Commit(ctx context.Context) ([]keyvalue.OpResult, error) {
 	t.abort()
-	t.store.mu.Unlock()
+	t.unlockOnce.Do(t.store.mu.Unlock)
 	return t.results, nil
 }
 
 func (t *transaction) Abort() error {
 	t.abort()
-	t.store.mu.Unlock()
+	t.unlockOnce.Do(t.store.mu.Unlock)
 	return nil
 }
